@@ -17,6 +17,33 @@ CLAIMED = {
         "and by exact re-evaluation of err1/err2 in integer arithmetic for random planted-shift fibres.",
    ref="5/C14", note=TB + "log and nansum are modelled: the model sums exactly, the implementation's argmin is accepted when within 1e-6 "
         "relative of the exact minimum.", technique="Coq proof over list model + exhaustive/seeded correspondence via vm_compute"),
+ "C16": dict(
+   text="Proof, for every grid, every number of baths and stretches: the validator of the model accepts a sections dictionary if and only if "
+        "every key is a data variable, every stretch selects at least one location and no location is selected twice (accept <=> usable); "
+        "a location is used iff some stretch selects it; the observation rows are exactly the (location, bath) pairs with the bath whose "
+        "stretch selected the location, aligned position by position, without repetition for an accepted definition. The pre-repair "
+        "bounds test is refuted in Coq in both directions (finding F10, repaired by a fix: commit). Model tied to validate_sections + "
+        "ufunc_per_section by exhaustive small layouts and seeded random layouts evaluated in Coq, plus end-to-end runs of "
+        "calibrate_single_ended and variance_stokes_constant.",
+   ref="5/C16", note=TB + "xarray .sel on an increasing index is modelled as inclusive label selection; the variance estimators receive a "
+        "DataArray and cannot test key membership (clause decided for calibration only).", technique="Coq proof (iff, for all layouts) + exhaustive small-layout correspondence via vm_compute"),
+ "C20": dict(
+   text="Proof for all layouts: calc_per=stretch/section/all of the model return exactly the values at the selected locations, per stretch in "
+        "the given order, per bath, and over all baths at ix_all with each location's own bath; ix_all is strictly ascending (fibre order) "
+        "for every accepted definition on an increasing grid; the five argument modes (plain, x_indices, temp_err, ref_temp_broadcasted, "
+        "subtract_from_label) are the stated element-wise operations. Tied to ufunc_per_section by seeded layouts x 5 modes x 3 calc_per x "
+        "1-D/2-D variables x numpy/dask with tagged integer data compared exactly inside Coq.",
+   ref="5/C20", note=TB + "func=None (identity); the statistic is the caller's function.", technique="Coq proof over list model + seeded correspondence via vm_compute"),
+ "C15": dict(
+   text="Proof for time axes of any length with mutually distinct stamps: the chronological walk keeps forward i with backward j iff bw_j is later "
+        "than fw_i with no forward or backward measurement strictly in between (T54); pair k is dropped by the neighbour filter iff its two "
+        "neighbours' offsets agree within 1.5 s and its own offset differs from its predecessor's by more (T55); the function as coded, including "
+        "its shortcut for complete interleaved histories, equals walk+filter with and without verify_timedeltas (T56, proved via uniqueness of "
+        "sorted permutations); the spatial pairing keeps (x_j, nearest mirrored backward sample within tolerance) (T57). The pre-repair shortcut "
+        "is refuted in Coq (finding F9, repaired). Correspondence: all 4^N drop patterns for N<=5 (quick) / N<=7 (thorough), regular and "
+        "jittered timing, both flags, evaluated in Coq; seeded spatial grids; swapped channels refused.",
+   ref="5/C15", note=TB + "dict merge + sorted() and pandas nearest reindexing are modelled; ties in nearest reindexing excluded.",
+   technique="Coq proof (iff + code=spec for all histories) + exhaustive history enumeration via vm_compute"),
 }
 NA = {}
 ALL = [f"C{i:02d}" for i in range(1, 21)]
